@@ -441,7 +441,7 @@ func vfCatch(p *path, caller *frame, args []value) (res value) {
 			}
 			_ = explicitOK
 			if tp.runtime {
-				msg = p.mkStr("runtime error: " + tp.kind + " at " + tp.where)
+				msg = p.mkStr("runtime error")
 			}
 			res = tuple{tc.tt, tc.Bool(tp.runtime), msg}
 		}
